@@ -400,3 +400,92 @@ def scope_case(case: dict) -> dict:
                 raise
             out["assign"] = {"res": type(e).__name__, "msg": str(e)[:160]}
     return out
+
+
+# ---------------------------------------------------------------------------
+# C14: mapping API histories
+
+def map_history(case: dict) -> dict:
+    from nix_manipulator.parser import parse
+    out: dict = {"steps": []}
+    try:
+        src = parse(case["text"])
+        out["text0"] = src.rebuild()
+    except BaseException as e:  # noqa: BLE001
+        if isinstance(e, (KeyboardInterrupt, SystemExit)):
+            raise
+        out["fail"] = _exc(e)
+        return out
+
+    def surface(s):
+        if s["kind"] == "doc":
+            return src
+        if s["kind"] == "scope":
+            return src.expr.scope
+        return src[s["via"]]
+
+    def pyval(v):
+        if v["k"] == "int":
+            return v["v"]
+        if v["k"] == "set":
+            return {x["ap"][0]: pyval(x["val"]) for x in v["items"]}
+        raise ValueError("unsupported model value")
+
+    def render(x):
+        try:
+            return x.rebuild()
+        except Exception:  # noqa: BLE001
+            return repr(x)
+    for op in case["ops"]:
+        st: dict = {}
+        before = None
+        try:
+            before = snapshot(src)
+        except BaseException:  # noqa: BLE001
+            pass
+        try:
+            with time_limit(10):
+                m = surface(op["s"])
+                if op["m"] == "get":
+                    st["got"] = render(m[op["k"]])
+                elif op["m"] == "set":
+                    m[op["k"]] = pyval(op["v"])
+                else:
+                    del m[op["k"]]
+            st["res"] = "ok"
+        except BaseException as e:  # noqa: BLE001
+            if isinstance(e, (KeyboardInterrupt, SystemExit)):
+                raise
+            st["res"] = type(e).__name__
+            st["exc"] = _exc(e)
+            try:
+                st["same_snap"] = snapshot(src) == before
+            except BaseException:  # noqa: BLE001
+                st["same_snap"] = False
+        # observe: which keys of the universe does the surface report now; value read back after a set
+        rep, sok = [], True
+        try:
+            m2 = surface(op["s"])
+            for k in case["universe"]:
+                try:
+                    m2[k]
+                    rep.append(k)
+                except KeyError:
+                    pass
+            if op["m"] == "set" and st["res"] == "ok":
+                st["got_after"] = render(m2[op["k"]])
+        except BaseException as e:  # noqa: BLE001
+            if isinstance(e, (KeyboardInterrupt, SystemExit)):
+                raise
+            sok = False
+        st["reported"], st["surface_ok"] = rep, sok
+        try:
+            st["cur"] = src.rebuild()
+        except BaseException as e:  # noqa: BLE001
+            if isinstance(e, (KeyboardInterrupt, SystemExit)):
+                raise
+            st["cur_fail"] = _exc(e)
+            out["steps"].append(st)
+            break
+        out["steps"].append(st)
+    return out
